@@ -178,6 +178,13 @@ def gen_case(rng, tier):
     for _ in range(rng.choice([1, 2, 2, 3])):
         c = leaves[0] if rng.random() < 0.6 else rng.choice(leaves)
         objects.append([c, some_ifaces(rng.choice([0, 1, 1, 2]))])
+    falsy = None
+    if rng.random() < 0.3:
+        # instances that are false in a boolean context (empty containers, __bool__ False): the
+        # underlying object of a proxy must reach the factory whatever its truth value
+        falsy = rng.choice(["len", "bool"])
+        for o in objects:
+            o.append(rng.random() < 0.7)
     ops = []
     # initial declarations; some classes stay undeclared mixins, some are *only* classes
     for c in range(1, nc + 1):
@@ -200,7 +207,7 @@ def gen_case(rng, tier):
     regs = [reg() for _ in range(rng.choice([1, 2, 3]))]
 
     def sweep(p_each=1.0):
-        for j, (t, _d) in enumerate(objects):
+        for j, t in enumerate(o[0] for o in objects):
             for cc in mro[t]:
                 if cc == 0 and rng.random() < 0.8:
                     continue
@@ -257,7 +264,10 @@ def gen_case(rng, tier):
             adapts(rng.choice([1, 2]))       # adaptation first: the registry itself meets the cold cache
         sweep(rng.choice([1.0, 1.0, 0.5]))
         adapts(rng.choice([1, 2]))
-    return {"ifaces": ifaces, "classes": classes, "objects": objects, "ops": ops}
+    case = {"ifaces": ifaces, "classes": classes, "objects": objects, "ops": ops}
+    if falsy:
+        case["falsy"] = falsy
+    return case
 
 
 def gen_reg_case(rng):
@@ -340,7 +350,7 @@ def _op(op):
 def _env(case):
     cg = ["(0, [])"] + ["(%d, %s)" % (k + 1, _lnat(bs)) for k, bs in enumerate(case["classes"])]
     ig = ["(%d, %s)" % (k + 1, _lnat(bs)) for k, bs in enumerate(case["ifaces"])]
-    objs = ["(%d, %s)" % (c, _lnat(d)) for c, d in case["objects"]]
+    objs = ["(%d, %s)" % (o[0], _lnat(o[1])) for o in case["objects"]]
     return "(mkEnv [%s] [%s] [%s])" % ("; ".join(cg), "; ".join(ig), "; ".join(objs))
 
 
@@ -459,8 +469,13 @@ def replay_text(case, obs, mode):
         L.append("I.append(InterfaceClass('I%d', (%s), {}))" % (k + 1, "".join("I[%d], " % b for b in bs) or "Interface,"))
     for k, bs in enumerate(case["classes"]):
         L.append("K.append(type('C%d', (%s), {}))" % (k + 1, "".join("K[%d], " % b for b in bs)))
-    L.append("O = [K[c]() for c in %r]" % [c for c, _d in case["objects"]])
-    for j, (_c, d) in enumerate(case["objects"]):
+    if case.get("falsy"):
+        L.append("# every class defines %s reading a per-instance flag; falsy instances: %s" % (
+            {"len": "__len__ (0 when flagged)", "bool": "__bool__ (False when flagged)"}[case["falsy"]],
+            [j for j, o in enumerate(case["objects"]) if len(o) > 2 and o[2]]))
+    L.append("O = [K[c]() for c in %r]" % [o[0] for o in case["objects"]])
+    for j, o in enumerate(case["objects"]):
+        d = o[1]
         if d:
             L.append("directlyProvides(O[%d], %s)" % (j, ", ".join("I[%d]" % i for i in d)))
     L.append("# real __mro__ (class numbers): %s" % json.dumps(obs.get("mros")))
